@@ -337,6 +337,10 @@ def nontrivial(h):
     return len(h["ops"]) >= 3 and nested
 
 
+def _reinstall(ctx):
+    install_invariant(ctx)
+
+
 def run(ctx):
     install_invariant(ctx)
     try:
@@ -351,6 +355,12 @@ def _run(ctx):
     ctx.require("oracle.model_compare", 1000)
     ctx.require("oracle.is_tag_child", 500)
     ctx.require("oracle.rejections", 50)
+    if ctx.thorough and ctx.shard == 0:
+        from .. import repotests
+
+        contracts.unpatch_all()  # the plugin installs its own monitors in the pytest process
+        repotests.run_under(ctx, ["invariant"])
+        _reinstall(ctx)
     # deterministic core cases
     fixed = [
         {"via": "taglist", "start": [], "ops": [{"op": "iadd", "arg": {"k": "list", "t": "list", "c": [{"k": "num", "v": 1}, {"k": "none"}, {"k": "list", "t": "list", "c": [{"k": "text", "s": "x"}]}]}}]},
